@@ -72,6 +72,13 @@ func genTokSpec(r *Rand, nCast int, label string, rich bool) TokSpec {
 			d.SubMilli = int64(r.Range(1, 999))
 		}
 		d.Relative = r.Chance(0.5)
+		if r.Chance(0.06) {
+			// both bounds inside one wall-clock second: a window that is real as constructed and
+			// collapses to a single instant on the wire
+			sec := int64(r.Range(10, 1<<20))
+			d.Nbf, d.Exp = &sec, ptr(sec)
+			d.NbfMilli, d.SubMilli = int64(r.Range(1, 400)), int64(r.Range(500, 999))
+		}
 		d.NonceLen = []int{0, 0, 12, 16, 32}[r.Intn(5)]
 		d.Meta = genMeta(r)
 		return TokSpec{Kind: "dlg", Dlg: d}
